@@ -54,6 +54,8 @@ Def(v, sb, bb) ==
     [] v = "FB" -> [deck |-> "REGULAR", types |-> <<"Badugi">>, structure |-> "Fixed-limit", streets |-> Draw(4, 3, sb, bb, FLCap)]
 
 Names == {"FT", "NT", "NR", "NS", "PO", "FO/8", "F7S", "F7S/8", "FR", "N2L1D", "F2L3D", "FB"}
+\* the hand-history variant codes (royal hold'em has none: a hand of it cannot be filed under any code)
+Codes == Names \ {"NR"}
 
 \* the cards of the named decks (module Hands: rank index * 4 + suit)
 DeckCards(d) ==
